@@ -502,6 +502,10 @@ func (s *scope) lookupName(name unistring.String) (binding *binding, noDynamics 
 			}
 			curScope.argsNeeded = true
 			binding, _ = curScope.bindName(name)
+			if toStash && !binding.inStash {
+				// referenced from an arrow function: it is a captured binding like any other
+				binding.moveToStash()
+			}
 			return
 		}
 		if curScope.isFunction() {
